@@ -348,6 +348,8 @@ type HCase struct {
 	AnnexI bool         `json:"annexI,omitempty"`
 	// Chunked: low-latency delivery (ato = 3/4, chunkdur = 1/4 of the segment); the segments are requested after their end
 	Chunked bool `json:"chunked,omitempty"`
+	// Periods: multi-period presentation (periods_60): every Period announces the event stream
+	Periods bool `json:"periods,omitempty"`
 }
 
 // mkURL is ls.URL plus, for Annex I cases, the query parameters the annexI_ option announces (the server checks them)
@@ -377,6 +379,9 @@ func genH(t *rapid.T) (HCase, *env.Env) {
 	if a := tg.Asset; a == "testpic_2s" || a == "testpic_6s" || a == "testpic_8s" {
 		c.Chunked = rapid.IntRange(0, 2).Draw(t, "chunked") == 0
 	}
+	if a := tg.Asset; a == "testpic_2s" || a == "testpic_6s" {
+		c.Periods = rapid.IntRange(0, 2).Draw(t, "periods") == 0
+	}
 	return c, e
 }
 
@@ -395,6 +400,9 @@ func checkH(c HCase, e *env.Env) (*hx.Violation, hinfo) {
 	if c.Chunked {
 		segMS := int64(e.Asset.LoopMS) / int64(len(e.Asset.Ref.Segs))
 		parts = append(parts, "ato_"+refmodel.FormatMS(segMS*3/4), "chunkdur_"+refmodel.FormatMS(segMS/4))
+	}
+	if c.Periods {
+		parts = append(parts, "periods_60")
 	}
 	vrep := e.Asset.Ref
 	if vrep.ContentType != "video" {
@@ -434,15 +442,17 @@ func checkH(c HCase, e *env.Env) (*hx.Violation, hinfo) {
 	if err != nil {
 		return hx.V("mpd-unparsable", "%v", err), inf
 	}
-	for _, as := range m.Periods[0].AS {
-		has := false
-		for _, d := range as.InbandEventStreams {
-			if d.SchemeIdUri == "urn:scte:scte35:2013:bin" {
-				has = true
+	for _, per := range m.Periods {
+		for _, as := range per.AS {
+			has := false
+			for _, d := range as.InbandEventStreams {
+				if d.SchemeIdUri == "urn:scte:scte35:2013:bin" {
+					has = true
+				}
 			}
-		}
-		if has != (as.Kind() == "video") {
-			return hx.V("inband-event-stream", "%s adaptation set: InbandEventStream for SCTE-35 present=%v", as.Kind(), has), inf
+			if has != (as.Kind() == "video") {
+				return hx.V("inband-event-stream", "period %s, %s adaptation set: InbandEventStream for SCTE-35 present=%v", per.ID, as.Kind(), has), inf
+			}
 		}
 	}
 	// all video segments covering minutes [Minute, Minute+3) counted from AST (media time)
@@ -566,6 +576,9 @@ func TestC13HTTP(t *testing.T) {
 		}
 		if c.Chunked {
 			cls = append(cls, "http:chunked-delivery")
+		}
+		if c.Periods {
+			cls = append(cls, "http:multi-period")
 		}
 		if inf.spansMinute {
 			cls = append(cls, "http:segment-spans-minute-start")
